@@ -1,8 +1,9 @@
 """Contracts (string view): eval_structure_generation/file_import/parser.py -- the directory walk (C04, C08, C15).
 
 File-system model (assumed, pathlib / os): is_dir(p), child(p, q) (q in p.iterdir()), path_str, path_suffix, file text; resolve() is the
-identity on the absolute, symlink-free paths handed in. The module name of a path (`_get_module_name`) is an assumed function
-mod_name(root, p): its string construction is covered by the bounded C04 stand-in."""
+identity on the absolute, symlink-free paths handed in. The module name of a path (`_get_module_name`) enters these contracts as the function
+mod_name(root, p); what that function is (root name + '.' + dotted relative path without suffix) is proved on the real code in c_entry.py
+(Parser._get_module_name@str) and additionally covered by the bounded C04 stand-in."""
 import z3
 from pyvc import vals
 from pyvc.vals import V, vbool, vstr
@@ -65,7 +66,9 @@ c_str.alt = REG.add(Contract("FileFilter.is_excluded@path", module="pytestarch.e
                              params=dict(self="FileFilter", obj="Opaque[Path]"), returns="Bool", defn="ff_excluded(self, path_str(obj))", properties=["C08", "C04"]))
 REG.macro("p_excl", ["pa", "p"], "ff_excluded(pa._filter, path_str(p))")
 REG.add(Contract(f"{PA}._get_module_name", module=M_PA, kind="method", status="assumed", params=dict(self=PA, path="Opaque[Path]"), returns="Str",
-                 defn="mod_name(self._source_root, path)", note="dotted path relative to the source root, prefixed with the root's name; bounded by the C04 stand-in"))
+                 defn="mod_name(self._source_root, path)", note="dotted path relative to the source root, prefixed with the root's name: the string construction is PROVED on the real function under the key "
+                      "Parser._get_module_name@str (c_entry.py; linked by name through the definition ModNameDef of mod_name); assumed here: the paths met during a scan lie "
+                      "below the source root (no ValueError from relative_to); also exercised by the bounded C04 stand-in"))
 REG.add(Contract(f"{PA}._file_should_be_parsed", module=M_PA, kind="method", view="string", params=dict(self=PA, path="Opaque[Path]"), returns="Bool",
                  defn="path_suffix(path) == '.py' and not p_excl(self, path)", properties=["C04", "C08"]))
 REG.add(Contract(f"{PA}._parse_file", module=M_PA, kind="method", view="string", params=dict(self=PA, path="Opaque[Path]"), returns="Opt[NamedModule]",
@@ -103,18 +106,44 @@ def _tree_unfold(eng, st, pa):
     return vbool(z3.ForAll([p, n], f_contrib(F, root, p, n) == z3.Or(own, step)))
 
 
+# the parsed files, same construction: ast_contrib(F, root, p, m): some non-excluded .py file of the sub-tree of p that is reached through non-excluded
+# directories yields the named module m = (ast of its text, its module name). Least fixpoint of the unfolding equation, assumed via AstTreeUnfold.
+f_acontrib = z3.Function("fs_ast_contrib", z3.ArraySort(S, z3.BoolSort()), PT, PT, NM["sort"], z3.BoolSort())
+REG.specfuns["fs_ast_contrib"] = lambda eng, st, F, r, p, m: vbool(f_acontrib(F.x, r.x, p.x, m.x))
+REG.macro("ast_contrib", ["pa", "p", "m"], "fs_ast_contrib(pa._filter._excluded_directories, pa._source_root, p, m)")
+
+
+@REG.specfun("AstTreeUnfold", schema=True)
+def _ast_tree_unfold(eng, st, pa):
+    """Schema (trusted, true of the least fixpoint on a finite acyclic tree): ast_contrib(p, m) <=> (p is a non-excluded .py file and m is its named module)
+    or (p is a non-excluded directory and some child q has ast_contrib(q, m))."""
+    F = pa.x["_filter"].x["_excluded_directories"].x
+    root = pa.x["_source_root"].x
+    p, q = z3.Consts("au!p au!q", PT)
+    m, pat = z3.Const("au!m", NM["sort"]), z3.Const("au!pat", S)
+    from .c_strings import _f_re_match
+    excl = lambda x: z3.Exists([pat], z3.And(z3.Select(F, pat), _f_re_match(pat, _f_path_str(x))))
+    own = z3.And(z3.Not(f_is_dir(p)), f_suffix(p) == z3.StringVal(".py"), z3.Not(excl(p)), m == NM["ctor"](f_ast(f_ftext(f_file(p))), f_modname(root, p)))
+    step = z3.And(f_is_dir(p), z3.Not(excl(p)), z3.Exists([q], z3.And(f_child(p, q), f_acontrib(F, root, q, m))))
+    return vbool(z3.ForAll([p, m], f_acontrib(F, root, p, m) == z3.Or(own, step)))
+
+
 REG.add(Contract(f"{PA}.parse", module=M_PA, kind="method", view="string", params=dict(self=PA, path="Opaque[Path]"),
                  returns="Tuple[Bag[Str],Bag[NamedModule]]", modifies=["self"],
-                 use_at_start=["TreeUnfold(self)"],
+                 use_at_start=["TreeUnfold(self)", "AstTreeUnfold(self)"],
                  # C04 / C08: exactly one module per non-excluded directory and per non-excluded .py file that is reached from `path` through
                  # non-excluded directories; nothing at or below an excluded directory; independent of the enumeration order (C15)
                  ensures=["forall(Str, lambda n: (n in result[0]) == contrib(old(self), path, n))",
                           "forall(NamedModule, lambda m: implies(m in result[1], nm_name(m) in result[0]))",
+                          # C08: exactly the non-excluded .py files reached through non-excluded directories are parsed (an excluded file or sub-tree contributes no import)
+                          "forall(NamedModule, lambda m: (m in result[1]) == ast_contrib(old(self), path, m))",
                           "self._filter == old(self)._filter", "self._source_root == old(self)._source_root"],
                  locals=dict(paths="Bag[Opaque[Path]]", modules="Bag[NamedModule]"),
                  loops={0: dict(sig="while paths", invariant=[
                      "self._filter == pre(self)._filter", "self._source_root == pre(self)._source_root",
                      "forall(Str, lambda n: ((n in self._all_modules) or exists(Opaque[Path], lambda p: (p in paths) and contrib(self, p, n))) == contrib(self, pre(path), n))",
                      "forall(Str, lambda n: implies(n in self._all_modules, contrib(self, pre(path), n)))",
-                     "forall(NamedModule, lambda m: implies(m in modules, nm_name(m) in self._all_modules))"])},
+                     "forall(NamedModule, lambda m: implies(m in modules, nm_name(m) in self._all_modules))",
+                     "forall(NamedModule, lambda m: ((m in modules) or exists(Opaque[Path], lambda p: (p in paths) and ast_contrib(self, p, m))) == ast_contrib(self, pre(path), m))",
+                     "forall(NamedModule, lambda m: implies(m in modules, ast_contrib(self, pre(path), m)))"])},
                  properties=["C04", "C08", "C15", "C02"]))
